@@ -29,7 +29,7 @@ def specs_for(ctx):
             ext = 1.0
         align = rng.random() < 0.33
         specs.append({"dynamic": True, "tissue": tissue, "k": rng.choice([1, 1, 2]) if align else rng.choice([1, 2, 4, 8]), "seed": rng.randrange(10 ** 9), "want": ["C03"],
-                      "nframes": nframes, "when": when, "align": align, "step_frac": rng.choice([0.05, 0.15, 0.3]),
+                      "nframes": nframes, "when": when, "zero_stamp": rng.randrange(8) if rng.random() < 0.25 else None, "align": align, "step_frac": rng.choice([0.05, 0.15, 0.3]),
                       "sim": {"theta": rng.uniform(0, 2 * math.pi), "scale": 10 ** rng.uniform(-2, 2), "offset_sizes": rng.uniform(0, 2),
                               "extent": ext, "reflect": rng.random() < 0.3},
                       "build": {"fit": rng.choice(["dlite", "taubinSVD"])}, "solve": {"method": method}})
